@@ -192,8 +192,8 @@ def check(idx, run):
     reach = set(cfg.reachable())
     live = [n for n in cfg.stmt_nodes() if "rename_symbol(" in
             ast.unparse(n.ast) and n.kind == "stmt" and n.id in reach]
-    if not live:
-        guards = []
+    guards = [g for g in guards if any(
+        g.lineno <= n.lineno <= g.end_lineno for n in live)]
     merge_line = min((n.lineno for n in merges), default=0)
     run.check(
         "C07.R5", bool(guards) and all(g.lineno < merge_line
